@@ -308,7 +308,9 @@ def subdaily_case(spec, rng, keys):
     if mism:
         # classifier of the recorded mechanism: every mismatching day is a gap day or the day left of a gap day, the frame never
         # reports a day as missing/scaled, and the total over the run [left neighbour .. gap end] is what was metered in that run
-        neigh = set(gap_days) | {d - 1 for d in gap_days} | {d + 1 for d in gap_days}
+        # (the excluded final day counts as a gap day for its left neighbour when one of its readings is missing)
+        gd = set(gap_days) | ({ndays - 1} if (~present & (day_id == ndays - 1)).any() else set())
+        neigh = gd | {d - 1 for d in gd} | {d + 1 for d in gd}
         only_near_gaps = set(mism) <= neigh
         coverage_rule_never_applied = all(not np.isnan(per_day[d][0]) for d in mism if per_day[d][2] > 0) if mism else False
         total_got = float(np.nansum([per_day[d][0] for d in per_day]))
